@@ -337,6 +337,18 @@ func genInputs(kind string, seed int64, n int) []N {
 		add("func f(x) {\nreturn [x].map(f)\n}\nf(1)")
 		add("func f(x) {\nreturn try(func() { return f(x) })\n}\nf(1)")
 		add("func f(x) {\nreturn sorted([x, x], func(a, b) { f(a)\n return true })\n}\nf(1)")
+		// arguments for which the Go standard library panics with a value that is not an error (a string)
+		add("import strings\nstrings.repeat(\"ab\", -1)")
+		add("import bytes\nbytes.repeat(byte_slice([1]), -1)")
+		add("import rand\nrand.intn(0)")
+		add("import strings\nfunc pad(s, w) {\nreturn s + strings.repeat(\".\", w - len(s))\n}\ntry(func() { return pad(\"abcdef\", 3) }, func(e) { return string(e) })")
+		add("import strings\nt := spawn(func() { return strings.repeat(\"x\", -2) })\nt.wait()")
+		// loop headers with an empty clause
+		add("x := 0\nfor ; x < 3; x++ {\n}\nx")
+		add("func f() {\nx := 0\nfor ; x < 3; x++ {\nprint(x)\n}\nreturn x\n}\nf()")
+		add("x := 0\nfor ; x < 3; {\nx++\n}")
+		add("for x := 0; ; x++ {\nbreak\n}")
+		add("for ; ; {\nbreak\n}")
 		for _, d := range []int{10, 1000, 5000} {
 			add(strings.Repeat("(", d) + "1" + strings.Repeat(")", d))
 			add(strings.Repeat("[", d) + "1" + strings.Repeat("]", d))
